@@ -2,6 +2,14 @@ import Pyrtma.Proofs.Manager
 import Pyrtma.Proofs.ManagerOrder
 import Pyrtma.Spec.Manager
 import Pyrtma.Proofs.ManagerSimRun
+import Pyrtma.Proofs.ManagerSimOrigin
+import Pyrtma.Proofs.ManagerSimConn
+import Pyrtma.Proofs.ManagerSimOwedDep
+import Pyrtma.Proofs.ManagerSimOwedSeg
+import Pyrtma.Proofs.ManagerSimOwedRun
+import Pyrtma.Proofs.ManagerSimOwedPre
+import Pyrtma.Proofs.ManagerSimDrv
+import Pyrtma.Proofs.ManagerStatsRun
 /-!
 # C14 — undeliverable messages are reported, not silently lost
 
@@ -9,8 +17,18 @@ Theorems about one iteration of `forward_message`'s recipient loop (`deliverOne`
 `forward_message`, `send_to_loggers` and `send_ack` (`trySend`) and about `send_failed_message` (`failedMsg`), for every
 state, frame, writable set, set of failing sockets and every nested forward `fwd`.
 
-Refinement link, partial (the counted lower bounds of `checkData` / `checkDepartures` and `checkNoticeOrigin` are not
-linked): `spec_guard_clause_passes_on_model` (no notice about a notice, every history) and
+Refinement link: `model_meets_spec_c14` — no C14 entry in `Spec.runSpec` on the model's own run, for every well-formed
+history — `model_meets_spec_proven` (the seven properties of the `ManagerSim*` family) and `model_meets_spec`, all eight
+manager properties in one statement.  The pieces:
+`spec_frame_loop_adds_no_c14_on_model` (the Spec's loop over the frames of a round adds no C14 entry),
+`spec_segment_adds_no_c14_on_model` (`Spec.segment` adds no C14 entry on the events of any frame the model reads in a
+simulated state: the counted lower bounds of `checkData` and of `checkDepartures`, every branch; model-level cores
+`undeliverable_reported_counted`, `departure_notices_counted`, `nested_departure_notices_counted`),
+`spec_guard_clause_passes_on_model` (no notice about a notice, every history),
+`spec_data_clauses_pass_on_model` (`Spec.checkData`, its counted C14 clause included, returns its argument on the events
+of every data frame read in a simulated state; model-level core: `undeliverable_reported_counted`),
+`spec_notice_origin_clause_passes_on_model` (the clause `Spec.checkNoticeOrigin` — a notice is never invented — returns
+its argument on the events of every frame and of every stretch before the first read of a round, in a simulated state) and
 `logger_waited_clause_passes_partial` — the clause `Spec.checkLoggerWaited` ("a logger module is waited for instead of being
 skipped") adds no entry on the events of any frame the model reads in a state the Spec's abstract state simulates
 (`Inv`, which holds after every history: `spec_invariant_after_any_history`, and at every frame inside a round:
@@ -159,12 +177,316 @@ theorem spec_invariant_after_any_history (cfg : Cfg) (ok : CfgOK cfg) (hfuel : c
 state `a` simulates (`Inv`), handles it, possibly followed by the periodic section (`q`); `evs` are the events after the
 `rd` marker.  Then `Spec.checkLoggerWaited` — evaluated by `Spec.roundBody` on exactly these arguments, on a state `X`
 with the table and failure environment of `a` — reports nothing: every logger that subscribes to the type of a data frame
-(in range, not the ALL sentinel) and whose connection works gets its copy also when it was not writable.  Not linked:
-the other C14 clauses (see the header). -/
+(in range, not the ALL sentinel) and whose connection works gets its copy also when it was not writable.  (One clause of C14; the others: see the
+header and the theorems below.) -/
 theorem logger_waited_clause_passes_partial (cfg : Cfg) (ok : CfgOK cfg) (hfuel : cfg.fuel = 0) (hperm : OrdPerm cfg)
     {a : Spec.A} {s : State} (inv : Inv cfg a s) (rd : Read) (hu0 : rd.uid ≠ 0) (m : Module) (hm : s.find rd.uid = some m)
     (s2 : State) (q : QuietTo cfg (readOne cfg s rd) s2) (evs : List Ev) (he : s2.out = s.out ++ Ev.rd rd.uid :: evs)
     (X : Spec.A) (hXm : X.mods = a.mods) (hXf : X.fail = a.fail) : Spec.checkLoggerWaited cfg X rd evs = X :=
   loggerWaited_ok ok hfuel hperm inv rd hu0 m hm s2 q evs he X hXm hXf
+
+/-! ### The Spec's "a notice is never invented" clause on the model -/
+
+/-- **`Spec.checkNoticeOrigin` never fires on the model's own run.**  In a state `s` of the model that the Spec's abstract
+state `a` simulates (`Inv`: after every history — `spec_invariant_after_any_history` — and at every frame inside a round —
+`Proofs/ManagerSimRun.lean: readAll_go`), at both places where `Spec.roundBody` evaluates the clause:
+
+* one frame: the model reads a frame from connection `rd.uid` and handles it, possibly followed by the periodic section
+  (`q = true`, the last frame of a round); `evs` are the events after the `rd` marker;
+* the stretch before the first read of a round: clock, failure environment, `accept` with its log line, the poll, and
+  the periodic section when no frame is read in the round (`q = true`); the clause is judged with the table after the
+  accept (`preAcc`);
+
+every FAILED_MESSAGE written names a module of the table (or a CONNECT is being handled) and carries the type, source
+and destination of the frame in flight or of a message the manager itself originates: the clause returns the state it
+was given (`X`: any state with that table), i.e. adds no entry.  The model builds `failed` frames only in `failedMsg`,
+from the frame it was delivering (`Proofs/ManagerSimOrigin.lean`). -/
+theorem spec_notice_origin_clause_passes_on_model (cfg : Cfg) (ok : CfgOK cfg) {a : Spec.A} {s : State} (inv : Inv cfg a s) :
+    (∀ (rd : Read) (q : Bool) (evs : List Ev) (X : Spec.A), rd.uid ≠ 0 → X.mods = a.mods →
+        (if q then ticks cfg (readOne cfg s rd) else readOne cfg s rd).out = s.out ++ Ev.rd rd.uid :: evs →
+        Spec.checkNoticeOrigin cfg X (some rd) evs = X) ∧
+    (∀ (r : Round) (q : Bool) (evs : List Ev) (X : Spec.A), X.mods = (preAcc a r).mods →
+        (if q then ticks cfg (preS cfg s r) else preS cfg s r).out = s.out ++ evs →
+        Spec.checkNoticeOrigin cfg X none evs = X) :=
+  ⟨fun rd q evs X hu hX he => noticeOrigin_frame ok inv.sim rd hu q evs he X hX,
+   fun r q evs X hX he => noticeOrigin_pre ok inv.sim r q evs he X hX⟩
+
+/-- non-vacuity: the clause is not trivially silent — a notice nobody justified is flagged (no frame in flight, no such
+    module in the table), a notice about a frame the manager originates to a module of the table is not -/
+example : ((Spec.checkNoticeOrigin {} {} none [.send 3 1 (failedFrame {} 11 exFrame)]).errs.map (·.1) = ["C14"]) ∧
+    Spec.noticeJustified {} { mods := [{ uid := 1, modId := 11 }] } none (failedFrame {} 11 { exFrame with mtype := 32, src := 0, dest := 0 }) = true := by
+  decide
+
+/-! ### The counted lower bound: who is owed a notice gets it, as often as the Spec demands -/
+
+/-- **Every undeliverable subscriber is reported to every FAILED_MESSAGE observer, counted** (model level, one
+`forward_message` call at top level with everything nested in it).  `g` is any frame outside the recursion guard with
+destination fields in range, forwarded in a crash-free state.  `o` can take a FAILED_MESSAGE at the end (`StableF`: in the
+table, socket open, connection not failing, subscribed to FAILED_MESSAGE or to everything, writable or a logger).  `U` is
+a duplicate-free list of connections with module id `d`, each of them either a subscriber of `g`'s type that is not
+writable, is no logger and is still in the table at the end (`Owed`), or a subscriber whose connection fails, that `g`
+would be written to and that hears none of the manager's own notices (`FailOwed`, at the start).  Then `o` has been
+written at least `U.length` frames `failed d g.mtype g.src g.dest`. -/
+theorem undeliverable_reported_counted (cfg : Cfg) (ok : CfgOK cfg) (hfuel : cfg.fuel = 0) (hperm : OrdPerm cfg)
+    (s : State) (h : Top cfg s) (g : Frame) (hg : inGuard cfg g.mtype = false) (hin : oor cfg g = false)
+    (ext : List Ev) (he : (fwdTop cfg s g).out = s.out ++ ext) (o : Nat) (d : Int) (U : List Nat)
+    (ho : StableF cfg (fwdTop cfg s g) o) (hU : U.Nodup)
+    (hOw : ∀ u ∈ U, Owed cfg g.mtype d (fwdTop cfg s g) u ∨ (FailOwed cfg g d s u ∧ u ∈ idxGet s.idx g.mtype)) :
+    U.length ≤ fcnt o (.failed d g.mtype g.src g.dest) ext := by
+  obtain ⟨e, oe, x⟩ := fwdTop_owed ok (OrdAll_of_perm hperm) (ordSub_of_perm hperm) hfuel h.good g hg hin
+  have : e = ext := List.append_cancel_left (oe.symm.trans he)
+  subst this
+  exact x o d U ho hU hOw
+
+/-- **`Spec.checkData` never fires on the model's own run** — its C01 clauses and the counted C14 clause ("every observer
+of FAILED_MESSAGE that can take it gets, about every subscriber the frame cannot be handed to, at least as many notices
+naming that subscriber's id and the frame's type, source and destination as there are such subscribers with that id").
+The model reads a data frame (header and payload complete, not a control type) from `rd.uid` in a state `s` that the
+abstract state `a` simulates (`Inv`: after every history and at every frame inside a round), handles it, possibly followed
+by the periodic section (`q`); `evs` are the events after the `rd` marker.  Then `Spec.checkData`, evaluated by
+`Spec.segment` on the abstract state after the payload read (`Spec.checkAcks` in between returns its argument: C19),
+returns that state. -/
+theorem spec_data_clauses_pass_on_model (cfg : Cfg) (ok : CfgOK cfg) (hfuel : cfg.fuel = 0) (hperm : OrdPerm cfg)
+    {a : Spec.A} {s : State} (inv : Inv cfg a s) (rd : Read) (hu0 : rd.uid ≠ 0) (m : Module) (hm : s.find rd.uid = some m)
+    (s2 : State) (q : QuietTo cfg (readOne cfg s rd) s2) (evs : List Ev) (he : s2.out = s.out ++ Ev.rd rd.uid :: evs)
+    (hb : Spec.brokenRd cfg rd = false) (hctl : Spec.isControl cfg rd.h.mtype = false) :
+    Spec.checkData cfg (Spec.afterBuf cfg a rd) rd.h evs = Spec.afterBuf cfg a rd :=
+  dataClauses_ok ok hfuel hperm inv rd hu0 m hm s2 q evs he hb hctl
+
+/-- non-vacuity: the counted clause is not trivially silent — module 1 (id 11) subscribes to type 5000 and is not
+    writable, module 2 watches FAILED_MESSAGE and is writable; with no notice among the events the clause fires, with
+    the notice it does not -/
+def exA : Spec.A := { mods := [{ uid := 1, modId := 11, connected := true, types := [5000] },
+                               { uid := 2, modId := 12, connected := true, types := [8] }], nAccepted := 2, w := [2] }
+def exH : Hdr := { mtype := 5000, src := 10, dest := 0, destHost := 0, nbytes := 4, k := 7 }
+example : (Spec.checkData {} exA exH []).errs.map (·.1) = ["C14"] ∧
+    (Spec.checkData {} exA exH [.send 2 1 (failedFrame {} 11 exFrame)]).errs = [] := by decide
+
+/-! ### An undeliverable CLIENT_CLOSED is owed a notice too (model level) -/
+
+/-- **One departure, counted** (model level; linked to the Spec clause by `spec_segment_adds_no_c14_on_model`).  One
+departure handled at top level — `remove_module` with everything nested in it: the CLIENT_CLOSED forward, the notices
+about it, the departures of the connections that fail meanwhile and their own CLIENT_CLOSED forwards, for every nesting
+depth.  `ext` are its events; `o` can take a FAILED_MESSAGE at the end (`StableF`); `U` is a duplicate-free list of
+subscribers of CLIENT_CLOSED with module id `d` that are not writable, are no loggers and are still in the table at the
+end (`Owed`).  Then `o` has been written at least (number of connections closed in `ext`) · `|U|` notices
+`failed d CLIENT_CLOSED 0 0`: one per departure and subscriber — the count `Spec.checkDepartures` demands.
+The same bound for the other top-level operations of a segment: `Proofs/ManagerSimOwedTop.lean`. -/
+theorem departure_notices_counted (cfg : Cfg) (ok : CfgOK cfg) (hfuel : cfg.fuel = 0) (hperm : OrdPerm cfg)
+    (s : State) (h : Top cfg s) (u : Nat) (m : Module) (hm : s.find u = some m)
+    (ext : List Ev) (he : (removeModule cfg (fwdTop cfg) s u).out = s.out ++ ext) (o : Nat) (d : Int) (U : List Nat)
+    (hU : U.Nodup) (ho : StableF cfg (removeModule cfg (fwdTop cfg) s u) o)
+    (hOw : ∀ w ∈ U, Owed cfg cfg.mtClosed d (removeModule cfg (fwdTop cfg) s u) w) :
+    closeN ext * U.length ≤ fcnt o (Bc cfg d) ext := by
+  obtain ⟨e, oe, x⟩ := removeTop_counted ok (OrdAll_of_perm hperm) hfuel h u m hm o d U hU
+  have : e = ext := List.append_cancel_left (oe.symm.trans he)
+  subst this
+  simpa using x ho hOw
+
+/-- **The same for any top-level forward** (model level): whatever frame is forwarded from a crash-free state
+(a data frame, a log line, a periodic message, …), the departures nested in it are reported to the subscribers of
+CLIENT_CLOSED that cannot take the frame, counted as above; if the frame itself has the header of a CLIENT_CLOSED frame,
+`|U|` more. -/
+theorem nested_departure_notices_counted (cfg : Cfg) (ok : CfgOK cfg) (hfuel : cfg.fuel = 0) (hperm : OrdPerm cfg)
+    (s : State) (h : Top cfg s) (g : Frame)
+    (ext : List Ev) (he : (fwdTop cfg s g).out = s.out ++ ext) (o : Nat) (d : Int) (U : List Nat)
+    (hU : U.Nodup) (ho : StableF cfg (fwdTop cfg s g) o) (hOw : ∀ w ∈ U, Owed cfg cfg.mtClosed d (fwdTop cfg s g) w) :
+    closeN ext * U.length ≤ fcnt o (Bc cfg d) ext ∧
+    (closedHdr cfg g → closeN ext * U.length + U.length ≤ fcnt o (Bc cfg d) ext) := by
+  obtain ⟨e, oe, x⟩ := fwdTop_CK ok (OrdAll_of_perm hperm) hfuel o d U hU (need cfg s g) s g h.good (Nat.le_refl _)
+  have : e = ext := List.append_cancel_left (oe.symm.trans he)
+  subst this
+  refine ⟨by simpa using x 0 0 (Or.inl rfl) (Or.inl rfl) ho hOw, fun hc => ?_⟩
+  simpa using x 0 U.length (Or.inl rfl) (Or.inr ⟨rfl, hc⟩) ho hOw
+
+/-- non-vacuity: module 1 leaves; module 2 (id 11) subscribes to CLIENT_CLOSED and is not writable; module 3 watches
+    FAILED_MESSAGE and is told -/
+def exDep : State :=
+  { mods := [{ uid := 0, connected := true }, { uid := 1, modId := 10, connected := true },
+             { uid := 2, modId := 11, connected := true, subs := [33] },
+             { uid := 3, modId := 12, connected := true, subs := [8] }],
+    idx := [(33, [2]), (8, [3])], wlist := [1, 3], nextUid := 3 }
+example : (removeModule {} (fwdTop {}) exDep 1).out =
+      [.close 1, .send 3 1 (failedFrame {} 11 (closedFrame {} { uid := 1, modId := 10 }))] ∧
+    closeN (removeModule {} (fwdTop {}) exDep 1).out = 1 ∧
+    fcnt 3 (Bc {} 11) (removeModule {} (fwdTop {}) exDep 1).out = 1 := by decide
+
+/-- **The C14 clause of `Spec.checkDepartures` on the events of one frame**, for any abstract state in the right relation
+to the end of the stretch.  The model reads a frame from `rd.uid` in a crash-free state `s` and handles it, possibly followed by
+the periodic section (`q = true`); `evs` are the events after the `rd` marker.  `A2` is an abstract state that simulates
+the model's state at the end, `X` an abstract state from which `A2` arises by applying the departures of `evs` (same
+writable set and failure environment).  Then `Spec.checkDepartures cfg X md evs` adds no C14 entry (`ErrExt ["C07"]`: the
+only entries it can add are C07's, which `C07.spec_departure_clauses_pass_on_model` excludes): every observer of
+FAILED_MESSAGE that stays and can take it got one notice `failed d CLIENT_CLOSED 0 0` per departure and per subscriber of
+CLIENT_CLOSED with id `d` that stays, is not ready to accept data and is no logger.
+In the Spec's own run `A2 = Spec.segment cfg a rd evs` simulates the end state (`segment_ok`, C07 link) and in every branch
+of `Spec.segment` the state `X` that `checkDepartures` is evaluated on stands in this relation to it
+(`segment … = applyDepartures (… X …) evs` up to error entries); this instantiation, branch by branch, is
+`spec_segment_adds_no_c14_on_model` below; what is missing is the stretch before the first read of a round. -/
+theorem spec_departure_count_clause_passes_on_frame (cfg : Cfg) (ok : CfgOK cfg) (hfuel : cfg.fuel = 0) (hperm : OrdPerm cfg)
+    {s : State} (h : Top cfg s) (rd : Read) (q : Bool) (evs : List Ev)
+    (he : (if q then ticks cfg (readOne cfg s rd) else readOne cfg s rd).out = s.out ++ Ev.rd rd.uid :: evs)
+    {A2 X : Spec.A} (hs : SimM cfg A2 (if q then ticks cfg (readOne cfg s rd) else readOne cfg s rd))
+    (hXm : (Spec.applyDepartures X evs).mods = A2.mods) (hXw : X.w = A2.w) (hXf : X.fail = A2.fail) (md : Option Nat) :
+    Spec.ErrExt ["C07"] X (Spec.checkDepartures cfg X md evs) := by
+  refine depCount_frame ok hfuel hperm h rd ?_ evs he hs hXm hXw hXf md
+  cases q
+  · exact Or.inl rfl
+  · exact Or.inr rfl
+
+/-- **`Spec.segment` adds no C14 entry on the model's own run**: the model reads a frame from connection `rd.uid` in a
+state `s` that the abstract state `a` simulates (`Inv`: after every history and at every frame inside a round) and handles
+it, possibly followed by the periodic section (`hq`; `q` packages what the C07 link needs of that continuation);
+`evs` are the events after the `rd` marker.  Then whatever branch `Spec.segment` takes, its C14 clauses pass: the
+counted lower bound of `checkData` (data frames) and the counted lower bound of `checkDepartures` (every branch: an
+undeliverable CLIENT_CLOSED is owed a notice, once per departure and subscriber, at every FAILED_MESSAGE observer that
+stays and can take it). -/
+theorem spec_segment_adds_no_c14_on_model (cfg : Cfg) (ok : CfgOK cfg) (hfuel : cfg.fuel = 0) (hperm : OrdPerm cfg)
+    {a : Spec.A} {s : State} (inv : Inv cfg a s) (rd : Read) (hu0 : rd.uid ≠ 0) (m : Module) (hm : s.find rd.uid = some m)
+    (s2 : State) (q : QuietTo cfg (readOne cfg s rd) s2)
+    (hq : s2 = readOne cfg s rd ∨ s2 = ticks cfg (readOne cfg s rd))
+    (evs : List Ev) (he : s2.out = s.out ++ Ev.rd rd.uid :: evs) (hn : Spec.NoErr "C14" a) :
+    Spec.NoErr "C14" (Spec.segment cfg a rd evs) :=
+  segment_c14 ok hfuel hperm inv rd hu0 m hm s2 q hq evs he hn
+
+/-- non-vacuity of the hypotheses: the relation holds at the start of every history (`spec_invariant_after_any_history`),
+    and the counted clause of `checkDepartures` is not trivially silent — one departure, one owed subscriber, one
+    observer and no notice: it fires; with the notice it does not -/
+example : (Spec.checkDepartures {} { exA with mods := [{ uid := 1, modId := 11, connected := true, types := [33] },
+        { uid := 2, modId := 12, connected := true, types := [8] }, { uid := 3, modId := 13, connected := true }] }
+      (some 3) [.close 3]).errs.map (·.1) = ["C14"] ∧
+    (Spec.checkDepartures {} { exA with mods := [{ uid := 1, modId := 11, connected := true, types := [33] },
+        { uid := 2, modId := 12, connected := true, types := [8] }, { uid := 3, modId := 13, connected := true }] }
+      (some 3) [.close 3, .send 2 1 (failedFrame {} 11 (closedFrame {} { uid := 3, modId := 13 }))]).errs = [] := by decide
+
+/-- **The Spec's loop over the frames of a round adds no C14 entry on the model's own run.**  `s` is the model's state when
+the frames `reads` of a round start being read (after the accept branch and the poll), `a` an abstract state that
+simulates it, `sQ` the state after the frames — and after the periodic section, whose events belong to the last segment —
+`E` the events from `s` to `sQ`.  `Spec.roundBody.go` on `reads` and the segments of `E` (per frame: `checkNoticeOrigin`,
+`checkLoggerWaited`, `segment`) adds no C14 entry.  (The stretch before the first read of a round, a whole round and a
+whole run: `model_meets_spec_c14`.) -/
+theorem spec_frame_loop_adds_no_c14_on_model (cfg : Cfg) (ok : CfgOK cfg) (hfuel : cfg.fuel = 0) (hperm : OrdPerm cfg)
+    (hmt : cfg.mtClosed ≠ cfg.allTypes) (reads : List Read) (a : Spec.A) (s sQ : State) (E : List Ev) (fuel : Nat)
+    (inv : Inv cfg a s) (hwf : ∀ rd ∈ reads, rd.uid ≠ 0) (hlen : reads.length ≤ fuel)
+    (q : QuietTo cfg (readAll cfg reads s) sQ)
+    (hQ : sQ = readAll cfg reads s ∨ sQ = ticks cfg (readAll cfg reads s)) (he : sQ.out = s.out ++ E)
+    (hn : Spec.NoErr "C14" a) : Spec.NoErr "C14" (Spec.roundBody.go cfg a reads (Spec.splitRd E).2 fuel) :=
+  readAll_go_c14 ok hfuel hperm hmt reads a s sQ E fuel inv hwf hlen q hQ he hn
+
+/-- **Who is owed a notice in a round that accepts and reads nothing** (observed behaviour, not a finding; `defect_2` of
+the r3-sim report was the Spec clause judging this by the intersection of the two polls).  Log lines of level INFO are
+forwarded; connection 1 listens to them, connection 2 to CLIENT_CLOSED, logger 3 to FAILED_MESSAGE.  The last round accepts
+a connection and reads nothing.  The INFO line of `accept` goes to connection 1, whose socket is broken: it is dropped, and
+the CLIENT_CLOSED frame about it IS handed to connection 2 — writable at the previous poll, which is what the accept branch
+goes by — so no FAILED_MESSAGE is due.  The Spec counts as surely not ready only a subscriber that neither poll reported
+(`Spec.checkDeparturesAny`), and has nothing to object to. -/
+def exOwed : List Round :=
+  [{ accept := true }, { accept := true }, { accept := true },
+   { reads := [{ uid := 3, h := { k := 1, mtype := 4, nbytes := 44 }, avail := 44,
+                 pay := [1, 0, 0, 0, 0, 0, 13, 0, 7, 0, 0, 0] }], writable := [1, 2, 3] },
+   { reads := [{ uid := 1, h := { k := 2, mtype := 15, nbytes := 4 }, avail := 4, pay := [44, 0, 0, 0] }], writable := [1, 2, 3] },
+   { reads := [{ uid := 2, h := { k := 3, mtype := 15, nbytes := 4 }, avail := 4, pay := [33, 0, 0, 0] }], writable := [1, 2, 3] },
+   { reads := [{ uid := 3, h := { k := 4, mtype := 15, nbytes := 4 }, avail := 4, pay := [8, 0, 0, 0] }], writable := [1, 2, 3] },
+   { accept := true, failSet := [(1, some .hdr)], writable := [1, 2, 3, 4] }]
+example : ((modelObs { logLevel := 20 } exOwed).getLast?.map (fun l => l.map (fun e => match e with
+      | .send u _ f => (u, f.mtype) | .close u => (u, -1) | .wfail u => (u, -2) | _ => (0, 0)))) =
+    some [(1, -2), (1, -1), (2, 33)] := by decide +kernel
+example : (Spec.runSpec { logLevel := 20 } exOwed (Pyrtma.Drv.Manager.modelRun { logLevel := 20 } exOwed).1 none).errs = [] := by
+  decide +kernel
+
+/-- **The model meets the Spec for C14.**  Run the model on any well-formed history, hand the Spec the history and the
+events the model wrote, round by round: the Spec's verdict contains no C14 entry.  Every clause: `checkNoticeOrigin`,
+`checkLoggerWaited`, the counted lower bounds of `checkData` and `checkDepartures` (per frame:
+`spec_frame_loop_adds_no_c14_on_model`; on the stretch before the first read of a round — the accept branch judged by the
+previous poll, the periodic section of a round that reads nothing by the new one, `Spec.checkDeparturesAny`:
+`Proofs/ManagerSimOwedPre.lean`), and the whole-log clause `spec_guard_clause_passes_on_model`. -/
+theorem model_meets_spec_c14 (cfg : Cfg) (ok : CfgOK cfg) (hfuel : cfg.fuel = 0) (hperm : OrdPerm cfg)
+    (hmt : cfg.mtClosed ≠ cfg.allTypes) (rs : List Round) (hwf : RoundsWF rs) :
+    Spec.NoErr "C14" (Spec.runSpec cfg rs (modelObs cfg rs) none) := by
+  have hord : OrdOK cfg := ordOK_of_perm hperm
+  unfold Spec.runSpec
+  simp only [modelObs, List.drop_succ_cons, List.drop_zero, List.length_cons, modelRounds_length, Option.isSome_none,
+    Bool.or_false, beq_self_eq_true]
+  have h0 : Spec.NoErr "C14" (({} : Spec.A).chk true "C03" "the manager did not play every round of the script") := by
+    intro e he; cases he
+  have inv0 := init_sim ok hfuel hmt hord
+  obtain ⟨_, _, hflat⟩ := rounds_ok ok hfuel hperm hmt rs
+    (({} : Spec.A).chk true "C03" "the manager did not play every round of the script") (init cfg) inv0 hwf
+  have h1 := rounds_c14 ok hfuel hperm hmt rs
+    (({} : Spec.A).chk true "C03" "the manager did not play every round of the script") (init cfg) inv0 hwf h0
+  have hall : ((init cfg).out :: modelRounds cfg (init cfg) rs).flatten = (run cfg rs).out := by
+    rw [List.flatten_cons]; exact hflat
+  rw [hall]
+  unfold Spec.NoErr
+  rw [spec_guard_clause_passes_on_model]
+  exact (Spec.checkC05_ext _ _ _).noErr (by simp) h1
+
+/-- non-vacuity: the default configuration satisfies every side condition -/
+example : CfgOK ({} : Cfg) ∧ ({} : Cfg).fuel = 0 ∧ ({} : Cfg).mtClosed ≠ ({} : Cfg).allTypes := by
+  refine ⟨⟨by decide, by decide, by decide, fun _ _ h => h⟩, rfl, by decide⟩
+
+/-- **The model meets the Spec, for the proved properties** of the `ManagerSim*` family: `proven` = the six the simulation
+chain is stated over (`provenCore`) and C14. -/
+theorem model_meets_spec_proven (cfg : Cfg) (ok : CfgOK cfg) (hfuel : cfg.fuel = 0) (hperm : OrdPerm cfg)
+    (hmt : cfg.mtClosed ≠ cfg.allTypes) (rs : List Round) (hwf : RoundsWF rs) :
+    ∀ p ∈ proven, (p = "C05" → IncRounds 0 rs) → Spec.NoErr p (Spec.runSpec cfg rs (modelObs cfg rs) none) := by
+  intro p hp hinc
+  rcases List.mem_append.mp hp with h | h
+  · exact model_meets_spec_core ok hfuel hperm hmt rs hwf p h hinc
+  · simp only [List.mem_singleton] at h
+    subst h
+    exact model_meets_spec_c14 cfg ok hfuel hperm hmt rs hwf
+
+/-! ### All eight manager properties in one statement -/
+
+/-- **The model meets the Spec: all eight manager properties.**  Run the model on a history, hand `Spec.runSpec` the
+history and the events the model wrote: the verdict has no entry for any of C01 C03 C05 C06 C07 C14 C18 C19.  The side
+conditions are those of the two proof families together (`ManagerSim*`: `CfgOK`, automatic fuel, the iteration order a
+permutation, CLIENT_CLOSED is not the ALL sentinel, well-formed rounds, frames numbered in processing order — for C05;
+`ManagerStats*`, C18: no manager type is the ALL sentinel, a traffic table, -1 is no manager type, fewer than 65536 manager
+frames of one type in the run; its `OrderGood` and `RoundOK` follow from `OrdPerm` and `RoundsWF`). -/
+theorem model_meets_spec (cfg : Cfg) (ok : CfgOK cfg) (hfuel : cfg.fuel = 0) (hperm : OrdPerm cfg)
+    (hmt : cfg.mtClosed ≠ cfg.allTypes)
+    (hna : MgrNotAll cfg) (hsz : 0 < cfg.trafficSize) (hneg : mgrType cfg (-1) = false)
+    (rs : List Round) (hwf : RoundsWF rs) (hinc : IncRounds 0 rs) (hnw : NoWrap cfg (mrPair cfg rs).1.hist) :
+    ∀ p ∈ Spec.props, (Spec.runSpec cfg rs (Pyrtma.Drv.Manager.modelRun cfg rs).1 none).errs.filter (·.1 == p) = [] := by
+  intro p hp
+  simp only [Spec.props, List.mem_cons, List.not_mem_nil, or_false] at hp
+  have six : ∀ q ∈ provenCore,
+      (Spec.runSpec cfg rs (Pyrtma.Drv.Manager.modelRun cfg rs).1 none).errs.filter (·.1 == q) = [] :=
+    fun q hq => spec_passes_on_model ok hfuel hperm hmt rs hwf q hq (fun _ => hinc)
+  rcases hp with rfl | rfl | rfl | rfl | rfl | rfl | rfl | rfl
+  · exact six _ (by simp [provenCore])
+  · exact six _ (by simp [provenCore])
+  · exact six _ (by simp [provenCore])
+  · exact six _ (by simp [provenCore])
+  · exact six _ (by simp [provenCore])
+  · rw [(modelRun_obsM cfg rs).1]
+    exact (Spec.noErr_iff_filter "C14" _).mp (model_meets_spec_c14 cfg ok hfuel hperm hmt rs hwf)
+  · have hord : OrderGood cfg := fun l hl => ⟨(hperm l).nodup_iff.mpr hl, fun x => (hperm l).mem_iff⟩
+    exact runSpec_e18 ok hfuel hna hord hsz hneg rs (fun r hr => hwf r hr) hnw
+  · exact six _ (by simp [provenCore])
+
+/-- non-vacuity: the hypotheses of `model_meets_spec` hold together — default configuration, a history in which
+    three clients connect, subscribe (2 to CLIENT_CLOSED, 3 to FAILED_MESSAGE) and publish, and client 1's socket breaks -/
+def exAll : List Round :=
+  [{ accept := true }, { accept := true }, { accept := true },
+   { reads := [{ uid := 1, h := { k := 1, mtype := 13, src := 10 } }, { uid := 2, h := { k := 2, mtype := 13, src := 11 } },
+               { uid := 3, h := { k := 3, mtype := 13, src := 12 } }], writable := [1, 2, 3] },
+   { reads := [{ uid := 1, h := { k := 4, mtype := 15, nbytes := 4 }, avail := 4, pay := [136, 19, 0, 0] },
+               { uid := 2, h := { k := 5, mtype := 15, nbytes := 4 }, avail := 4, pay := [33, 0, 0, 0] },
+               { uid := 3, h := { k := 6, mtype := 15, nbytes := 4 }, avail := 4, pay := [8, 0, 0, 0] }], writable := [1, 2, 3] },
+   { failSet := [(1, some .hdr)], reads := [{ uid := 2, h := { k := 7, mtype := 5000 } }], writable := [1, 3] }]
+example : ∀ p ∈ Spec.props,
+    (Spec.runSpec {} exAll (Pyrtma.Drv.Manager.modelRun {} exAll).1 none).errs.filter (·.1 == p) = [] := by
+  refine model_meets_spec {} ⟨by decide, by decide, by decide, fun _ _ h => h⟩ rfl (fun l => List.Perm.refl l)
+    (by decide) ?_ (by decide) (by decide) exAll (by unfold RoundsWF RoundWF; decide) ?_ ?_
+  · intro t ht e
+    subst e
+    revert ht; decide
+  · simp [IncRounds, IncFrom, lastBound, exAll]
+  · intro t _
+    have : (mrPair {} exAll).1.hist.length < 100 := by decide
+    exact Nat.lt_of_le_of_lt List.count_le_length (by omega)
 
 end Pyrtma.C14
